@@ -13,8 +13,8 @@ HERE = os.path.dirname(os.path.abspath(__file__))
 VERIF = os.path.dirname(HERE)
 REL = {"C01": ["C01", "C11", "C16", "C03", "C13"], "C02": ["C02", "C12", "C13"], "C03": ["C03", "C04", "C13"], "C04": ["C04", "C03"],
        "C05": ["C05", "C01"], "C06": ["C06", "C07"], "C07": ["C07", "C06", "C20"], "C08": ["C08", "C09"], "C09": ["C09", "C08"],
-       "C10": ["C10", "C06"], "C11": ["C11", "C01"], "C12": ["C12", "C02"], "C13": ["C13", "C03"], "C14": ["C14", "C04"],
-       "C15": ["C15"], "C16": ["C16", "C02"], "C17": ["C17"], "C18": ["C18"], "C19": ["C19"], "C20": ["C20"]}
+       "C10": ["C10", "C06"], "C11": ["C11", "C01", "C02"], "C12": ["C12", "C02"], "C13": ["C13", "C03"], "C14": ["C14", "C04"],
+       "C15": ["C15"], "C16": ["C16", "C02", "C18"], "C17": ["C17"], "C18": ["C18", "C16"], "C19": ["C19"], "C20": ["C20"]}
 args = [a for a in sys.argv[1:] if not a.startswith("--")]
 recheck = "--recheck" in sys.argv
 done = set()
